@@ -11,6 +11,7 @@ import Iavl.Model.ReadCost
 import Iavl.Model.Ics23
 import Iavl.Model.ProofGen
 import Iavl.Model.Flusher
+import Iavl.Model.IndexMachine
 /-
   The executable face of the model: a line-protocol interpreter that answers every operation of a
   history with exactly the definitions the theorems are about (`VTree.step`, `hashNode`, `mkProof`,
@@ -99,6 +100,8 @@ structure XState where
   holds : List (String × Nat) := []   -- open exports: (handle, pinned version)
   prunedEver : Bool := false           -- a deletion of old versions may re-key a root to (v,0): fetching it then costs a second read
   cfgCache : Nat := 0                  -- node cache size of the configuration (read counts are predicted for 0 only)
+  ix : IxSt Bytes Bytes := IxSt.init none true   -- C07: the index machine, stepped beside the tree machine
+  ixValid : Bool := true               -- false once an operation outside the index machine's alphabet has run
 
 def init : XState := { vs := initT none, opened := false, cfgIv := none }
 
@@ -362,7 +365,7 @@ def sameRoot (vs : VState OT) : Bool :=
 
 def stepOp (x : XState) (op : Op Bytes Bytes) : XState × String :=
   let (vs', r) := VTree.step x.vs op
-  ({ x with vs := vs' }, fmtRes r)
+  ({ x with vs := vs', ix := x.ix.step x.cfgFast op }, fmtRes r)
 
 def parseIv (s : String) : Option Nat := if s == "-" then none else s.toNat?
 
@@ -400,7 +403,7 @@ def icsVerify : List String → String
 
 partial def exec (x : XState) (args : List String) : XState × String :=
   match args with
-  | "new" :: _ :: "legacy" :: _ => ({ init with opened := true }, "ok")   -- the legacy library starts on an empty store
+  | "new" :: _ :: "legacy" :: _ => ({ init with opened := true, ixValid := false }, "ok")   -- the legacy library starts on an empty store
   | "new" :: _ => (init, "ok")
   | ["flushcheck", thr, sizes] =>
     -- the physical writes `BatchWithFlusher` makes of a sequence of operations given by their sizes
@@ -422,18 +425,18 @@ partial def exec (x : XState) (args : List String) : XState × String :=
     -- the current library opens the database the legacy library wrote: a fresh tree object, Load()
     let (x', r) := stepOp x (.reopen x.cfgIv 0)
     ({ x' with opened := true, fastOpen := x.cfgFast, legacyLatest := some (latestVer x.vs.versions),
-               adoptedUpTo := latestVer x.vs.versions }, r)
+               adoptedUpTo := latestVer x.vs.versions, ixValid := false }, r)
   | ["ldel", v] =>
     -- legacy DeleteVersion: any version but the latest
     let n := v.toNat!
     if n == latestVer x.vs.versions || (findVer x.vs.versions n).isNone then (x, "err")
-    else ({ x with vs := { x.vs with versions := x.vs.versions.filter (fun p => p.1 != n) } }, "ok")
+    else ({ x with vs := { x.vs with versions := x.vs.versions.filter (fun p => p.1 != n) }, ixValid := false }, "ok")
   | ["ldelrange", a, b] =>
     let lo := a.toNat!
     let hi := b.toNat!
     if latestVer x.vs.versions < hi then (x, "err")
-    else ({ x with vs := { x.vs with versions := x.vs.versions.filter (fun p => p.1 < lo || p.1 ≥ hi) } }, "ok")
-  | "fresh" :: _ => ({ init with streams := x.streams }, "ok")
+    else ({ x with vs := { x.vs with versions := x.vs.versions.filter (fun p => p.1 < lo || p.1 ≥ hi) }, ixValid := false }, "ok")
+  | "fresh" :: _ => ({ init with streams := x.streams, ixValid := false }, "ok")
   | "makenode" :: _ | "makelegacy" :: _ | "fastnode" :: _ | "decbytes" :: _ | "decvarint" :: _ | "decuvarint" :: _
   | "rootval" :: _ => (x, (codecExec args).getD "bad")
   | "knew" :: _ | "kget" :: _ | "khas" :: _ | "kset" :: _ | "kdel" :: _ | "kiter" :: _ | "kriter" :: _
@@ -450,9 +453,16 @@ partial def exec (x : XState) (args : List String) : XState × String :=
     ({ x' with opened := true, fastOpen := x.cfgFast, holds := [] }, r)
   | ["opennl"] =>
     -- a new `MutableTree` on the same store, not loaded: the state a failed load leaves as well
-    ({ x with vs := x.vs.fresh treeContent x.cfgIv, opened := true, fastOpen := x.cfgFast, holds := [] }, "ok")
+    ({ x with vs := x.vs.fresh treeContent x.cfgIv, opened := true, fastOpen := x.cfgFast, holds := [],
+              ix := { x.ix with vs := x.ix.vs.fresh mapContent x.cfgIv, fast := x.cfgFast, adds := [], rems := [] } }, "ok")
   | ["close"] => ({ x with opened := false, holds := [] }, "ok")
   | ["dump"] => (x, "?")
+  | ["ixdump"] =>
+    -- the persisted fast index as the index machine predicts it: label and entries with their stamps
+    if !x.ixValid then (x, "?") else
+    let lab := match x.ix.label with | none => "none" | some v => toString v
+    let ents := x.ix.index.map fun p => enc (some p.1) ++ "=" ++ enc (some p.2.1) ++ "@" ++ toString p.2.2
+    (x, "label=" ++ lab ++ " idx=[" ++ ",".intercalate ents ++ "]")
   | ["encodedb", n] =>
     -- the model writes a database image of version n with its own encoder; from here on the store
     -- holds exactly that version
@@ -462,7 +472,7 @@ partial def exec (x : XState) (args : List String) : XState × String :=
       let img := encodeVersion H n.toNat! c
       let txt := "{" ++ " ".intercalate (img.map fun p => hexOf p.1 ++ ":" ++ hexOf p.2) ++ "}"
       ({ x with vs := { x.vs with versions := [(n.toNat!, c)], working := c, lastSaved := c, base := n.toNat! },
-                opened := true, fastOpen := x.cfgFast, legacyLatest := none }, "img=" ++ txt)
+                opened := true, fastOpen := x.cfgFast, legacyLatest := none, ixValid := false }, "img=" ++ txt)
   | "checkdump" :: toks =>
     let data := " ".intercalate toks
     let body := ((data.drop 1).dropRight 1).toString
@@ -484,7 +494,8 @@ partial def exec (x : XState) (args : List String) : XState × String :=
     | some (some _), some none => (x, "err")
     | _, _ => (x, "bad")
   | ["rm", k] => match dec k with | some (some k) => stepOp x (.remove k) | _ => (x, "bad")
-  | ["setiv", n] => ({ x with vs := { x.vs with ivOpt := n.toNat!, ivSet := true } }, "ok")   -- SetInitialVersion
+  | ["setiv", n] => ({ x with vs := { x.vs with ivOpt := n.toNat!, ivSet := true },
+                              ix := { x.ix with vs := { x.ix.vs with ivOpt := n.toNat!, ivSet := true } } }, "ok")   -- SetInitialVersion
   | ["iterrace"] => exec x ["save"]   -- conc mode: a commit raced by a parked reader; for the model it is a commit
   | ["save"] =>
     let same := sameRoot x.vs
@@ -574,7 +585,8 @@ partial def exec (x : XState) (args : List String) : XState × String :=
     if iver < 0 || !x.vs.versions.isEmpty || x.vs.working.isSome then (x, "err:new") else
     match runImport iver (mode == "zip") nodes commit with
     | (msg, some t) =>
-      ({ x with vs := { x.vs with versions := [(iver.toNat, t)], working := t, lastSaved := t, base := iver.toNat } }, msg)
+      ({ x with vs := { x.vs with versions := [(iver.toNat, t)], working := t, lastSaved := t, base := iver.toNat },
+                ixValid := false }, msg)
     | (msg, none) => (x, msg)
   | ["vproof", k, n] =>
     match findVer x.vs.versions n.toNat!, dec k with
